@@ -25,7 +25,9 @@ type c12Case struct {
 var c12Alphabet = []string{"", ".", "..", "a", "b", "ab", "a-b", "a/b", "a/c", "a/b/c", "b/a",
 	"../a", "a/..", "a/../b", "/a", "a/", "a//b", "./a", "..a",
 	// first bytes below '.', where a root record keyed "." instead of "" would sort wrongly
-	"-a", "-a/x", "-ab", "+", "+/a"}
+	"-a", "-a/x", "-ab", "+", "+/a",
+	// names that merely end in dots
+	"a..", "a../x", "...", ".../x"}
 
 func shardInfo() (int, int) {
 	sh, _ := strconv.Atoi(os.Getenv("VERIF_SHARD"))
